@@ -173,6 +173,8 @@ class Executor(object):
         self._loops_done = set()
         self.stats = dict(feasibility_checks=0, paths=0)
         self._module_state_cache = {}
+        self.module_reads = []                # (container name, key value) of reads from module-level containers
+        self.module_stores = []               # (container name, key value, stored value)
         self.inline_private_methods = False   # opt-in: private methods without a contract are executed in place
         self.local_classes = False            # opt-in: class statements inside functions bind a record of the class and its closure
         self.annihilations = None             # opt-in: list of (array operand, line) multiplied by the constant zero
@@ -798,6 +800,7 @@ class Executor(object):
     def subscript(self, v, idx, st, ctx, node=None):
         if isinstance(v, ModuleRef):
             # an entry of a module-level container: state that survives calls (and systems) -- whatever an earlier call stored there
+            self.module_reads.append((v.path, idx))
             return Opaque("module_state")
         try:
             return B.subscript(self, v, idx, st, ctx, node)
@@ -997,6 +1000,8 @@ class Executor(object):
             short = path.split(".")[-1]
             if "." in path and short in ("get", "setdefault", "pop", "copy", "items", "values", "keys") and self.is_module_state(path.rsplit(".", 1)[0], ctx):
                 # a method of a module-level mutable container of the file under verification: state that survives calls
+                if short in ("get", "setdefault", "pop") and args:
+                    self.module_reads.append((path.rsplit(".", 1)[0], args[0]))
                 return [(st, Opaque("module_state"))]
             if path in self.call_hooks or short in self.call_hooks:
                 r = self.call_hooks.get(path, self.call_hooks.get(short))(self, st, ctx, args, kwargs)
@@ -1484,6 +1489,8 @@ class Executor(object):
                     if isinstance(idx, Raised):
                         out.append((s2, ("raise", idx.exc)))
                         continue
+                    if isinstance(base, ModuleRef):
+                        self.module_stores.append((base.path, idx, v))
                     if id(base) in self.borrowed:
                         # `x[i] = v` / `x[mask] = v` writes into the array object itself: if it is one the caller still holds, the caller's
                         # data change behind its back (ownership clause of the harness that marked the object)
